@@ -145,7 +145,7 @@ def check_props(prop, extra_modules=()):
 
     Returns (obligations, discharged, theorem list). Raises BrokenTie when the
     proof no longer checks."""
-    rc, out = lake_build(["rsjmodel", "RsjProps." + prop] + list(extra_modules))
+    rc, out = lake_build(["RsjProps." + prop] + list(extra_modules))
     if rc != 0:
         raise BrokenTie("lake build RsjProps.%s failed (a proof obligation no longer checks)" % prop,
                         out[-6000:])
@@ -209,8 +209,51 @@ def impl(lines, **kw):
     return run_lines(HARNESS_BIN, lines, **kw)
 
 
+OP_MODULE = {"span": "Span", "gcscript": "Gc", "sort": "Sort", "lex": "Lexer", "parse": "Parser", "json": "Json",
+             "codec": "Codec", "obj": "Object", "fmt": "Format", "str": "Str", "cmp": "Compare", "core": "Eval",
+             "ana": "Analyze", "thunk": "Thunk", "tstack": "TraceStack", "num": "Num", "cli": "Cli", "imp": "Import"}
+_built_drivers = set()
+
+
+def driver_bin(op):
+    return os.path.join(LEAN_DIR, ".lake", "build", "bin", "drv_" + op)
+
+
+def build_driver(op):
+    """(Re)build the stand-alone model driver for one op (each module has its own
+    executable so that a broken module cannot block the others)."""
+    if op in _built_drivers:
+        return
+    rc, out = lake_build(["drv_" + op])
+    if rc != 0:
+        raise BrokenTie("model driver drv_%s failed to build" % op, out[-4000:])
+    _built_drivers.add(op)
+
+
 def model(lines, **kw):
-    return run_lines(MODEL_BIN, lines, **kw)
+    """Run request lines through the Lean model driver(s); lines are routed by op."""
+    ops = []
+    for l in lines:
+        op = l.split(" ", 1)[0]
+        if op not in ops:
+            ops.append(op)
+    if len(ops) == 1:
+        op = ops[0]
+        if op not in OP_MODULE:
+            return ["bad-op"] * len(lines)
+        build_driver(op)
+        return run_lines(driver_bin(op), lines, **kw)
+    outs = [None] * len(lines)
+    for op in ops:
+        idx = [i for i, l in enumerate(lines) if l.split(" ", 1)[0] == op]
+        if op not in OP_MODULE:
+            res = ["bad-op"] * len(idx)
+        else:
+            build_driver(op)
+            res = run_lines(driver_bin(op), [lines[i] for i in idx], **kw)
+        for i, r in zip(idx, res):
+            outs[i] = r
+    return outs
 
 
 def seed_tier(argv=None):
@@ -402,11 +445,7 @@ def prelude(rep, cli=False, extra_modules=()):
     except BrokenTie as e:
         rep.obligations = max(rep.obligations, 1)
         rep.broken_tie(e.what, e.detail)
-    # make sure the model driver exists even if a proof file is broken
-    if not os.path.exists(MODEL_BIN):
-        rc, out = lake_build(["rsjmodel"])
-        if rc != 0:
-            raise BrokenTie("model driver build failed", out[-3000:])
+    # model drivers are built on demand by vlib.model (one executable per op)
 
 
 def compare(rep, cases, impl_out, model_out, canon=None, label="case"):
